@@ -271,6 +271,10 @@ func (i *Index) RmDesc(d Descriptor) {
 	for mi := len(i.Manifests) - 1; mi >= 0; mi-- {
 		if d.Digest != "" && i.Manifests[mi].Digest == d.Digest {
 			if tag != "" {
+				// an entry whose last annotation was removed earlier is untagged, same as one that never had any
+				if len(i.Manifests[mi].Annotations) == 0 {
+					i.Manifests[mi].Annotations = nil
+				}
 				// deleting a tag leaves one untagged manifest entry
 				if found && (i.Manifests[mi].Annotations == nil || i.Manifests[mi].Annotations[AnnotRefName] == tag) {
 					i.Manifests[mi] = i.Manifests[len(i.Manifests)-1]
